@@ -23,6 +23,17 @@ CHECKS = {
         note=TRUST + "Real-valued histories are judged through integer-scaled residuals computed by the projection "
              "(tolerance 1e-6).",
         technique="TLA+ model checking (TLC) + spec-transition replay into Motl + TLC trace validation of recorded histories"),
+    "C07": dict(
+        text="Suppress.tla states the property as the predicate Valid(kept) over an abstract close relation, groups and a "
+             "strict rank, models the greedy loop as an algorithm-level action system and lets TLC check, for every relation "
+             "and grouping on up to 5 points, that the loop ends in a valid set and that the valid set is unique. TLC then "
+             "enumerates exact lattice configurations whose unique valid set is replayed through clean_by_distance and "
+             "scores_extract_particles; random real-valued lists and score maps are executed, their brute-force relations "
+             "and outputs recorded and judged by SuppressTrace.tla (separation, domination, subset, threshold, payload).",
+        ref="DESIGN.md §4 C07",
+        note=TRUST + "Close relations, ranks and supra-threshold sets in recorded traces are computed by brute force in the "
+             "driver; inputs with near-ties are discarded before the call.",
+        technique="TLA+ model checking (TLC) of the greedy algorithm against the predicate + exact replay + TLC trace validation"),
 }
 
 NOT_YET = {}
